@@ -1,0 +1,11 @@
+//go:build verif
+
+// Package verifsession re-exports the session's want bookkeeping for the
+// out-of-module verification harness. Compiled only with -tags verif.
+package verifsession
+
+import "github.com/ipfs/boxo/bitswap/client/internal/session"
+
+type SessionWants = session.VerifSessionWants
+
+var NewSessionWants = session.NewVerifSessionWants
